@@ -38,6 +38,10 @@ type c18Msg struct {
 	// Burst: this many copies arrive back to back (already queued on the socket
 	// before the monitor reads the first one).
 	Burst int `json:"burst,omitempty"`
+	// AtFlap: the message reaches the socket at the instant the link goes down (the
+	// monitor is being torn down while the read returns it). If ReadFrom hands it to the
+	// monitor it is counted like any other; if it is never read it is not.
+	AtFlap bool `json:"at_link_flap,omitempty"`
 }
 
 type c18Pfx struct {
@@ -127,6 +131,9 @@ func (m c18Msg) String() string {
 		return m.Type + "+" + m.Gap.String()
 	}
 	s := m.Type
+	if m.AtFlap {
+		s = "FLAP&" + s
+	}
 	if m.Type == "RA" {
 		s += fmt.Sprintf("[%s life=%d %s unk=%t]", m.Flags, m.Life, m.Prefixes, m.Unknown)
 	}
@@ -179,7 +186,8 @@ func (md c18Model) apply(m c18Msg, at time.Time) {
 }
 
 type c18Case struct {
-	Seq []c18Msg `json:"messages"`
+	Seq     []c18Msg `json:"messages"`
+	Choices []int    `json:"choices,omitempty"`
 }
 
 func (c c18Case) String() string {
@@ -191,13 +199,25 @@ func (c c18Case) String() string {
 }
 
 func c18Run(t *testing.T, c c18Case) (x *vsched.Exec, out [][2]string) {
+	sc := c18Scenario(c, &out)
+	x = vsched.RunOnce(t, sc, c.Choices)
+	if x.Failure != "" {
+		out = append(out, [2]string{"C18:" + x.FailKind, x.Failure})
+	}
+	return x, out
+}
+
+// c18Scenario: *outp is reset at the start of every execution and holds that
+// execution's findings at its end.
+func c18Scenario(c c18Case, outp *[][2]string) *vsched.Scenario {
 	bad := func(sig, format string, a ...any) {
-		out = append(out, [2]string{sig, fmt.Sprintf(format, a...)})
+		*outp = append(*outp, [2]string{sig, fmt.Sprintf(format, a...)})
 	}
 	sc := &vsched.Scenario{
 		Name:    "c18",
 		Horizon: 10 * time.Minute,
 		Setup: func(x *vsched.Exec) {
+			*outp = nil
 			m := newMonWorld("eth0", true)
 			// The monitor's wall clock: the virtual clock plus a skew the script can step
 			// backwards ("forall receipt times": they need not be monotonic).
@@ -225,6 +245,16 @@ func c18Run(t *testing.T, c c18Case) (x *vsched.Exec, out [][2]string) {
 					n := 1
 					if msg.Burst > 1 {
 						n = msg.Burst
+					}
+					if msg.AtFlap {
+						before := m.reads()
+						m.inject(msg.in())
+						vsched.Send("harness:link-change", m.watchC, netstate.LinkDown)
+						vsched.Sleep(100 * time.Millisecond)
+						if m.reads() > before {
+							model.apply(msg, at)
+						}
+						n = 0
 					}
 					for k := 0; k < n; k++ {
 						m.inject(msg.in())
@@ -278,17 +308,13 @@ func c18Run(t *testing.T, c c18Case) (x *vsched.Exec, out [][2]string) {
 			})
 		},
 	}
-	x = vsched.RunOnce(t, sc, nil)
-	if x.Failure != "" {
-		bad("C18:"+x.FailKind, "%s", x.Failure)
-	}
-	return x, out
+	return sc
 }
 
 func TestVerifC18(t *testing.T) {
 	r := ev.Begin("C18", "messages")
 	defer r.End(t)
-	r.Rule = "messages fed to the real Monitor.Run (real listener, memory metrics, virtual clock): (a) every single event = message shape (RA: M,O x lifetime {0,30s} x prefixes {none, P1, P1 infinite/zero, P1+P2, P1 with host bits, P1/48, wire-patched length byte 200 followed by P2} x unknown option {no,yes}; RS; NS; NA) x sender {fe80::1%eth0, fe80::1, fe80::2%eth0, 2001:db8::1%eth0, ::%eth0} x gap {0, 1.5s}; (b) all sequences of length<=L over a 18-event sub-alphabet (16 messages + a link flap that makes the monitor re-initialise + the wall clock stepped back by 10 min) chosen so that labels collide (same sender with/without zone, same prefix with other lifetimes/flags, lifetime 0 after non-zero, the same RA again later, RS/NS from an RA's sender); oracle: the eight corerad_monitor_* series equal a map-based model after every message, Run never returns; non-trivial = every case; distinct = distinct sequence"
+	r.Rule = "messages fed to the real Monitor.Run (real listener, memory metrics, virtual clock): (a) every single event = message shape (RA: M,O x lifetime {0,30s} x prefixes {none, P1, P1 infinite/zero, P1+P2, P1 with host bits, P1/48, wire-patched length byte 200 followed by P2} x unknown option {no,yes}; RS; NS; NA) x sender {fe80::1%eth0, fe80::1, fe80::2%eth0, 2001:db8::1%eth0, ::%eth0} x gap {0, 1.5s}; (b) all sequences of length<=L over a 18-event sub-alphabet (16 messages + a link flap that makes the monitor re-initialise + the wall clock stepped back by 10 min) chosen so that labels collide (same sender with/without zone, same prefix with other lifetimes/flags, lifetime 0 after non-zero, the same RA again later, RS/NS from an RA's sender); (c) every pair of the sub-alphabet with one message reaching the socket at the instant of a link flap (counted iff ReadFrom handed it over), and for 6 of them every goroutine schedule with <=2 deviations; oracle: the eight corerad_monitor_* series equal a map-based model after every message, Run never returns; non-trivial = every case; distinct = distinct sequence"
 	if r.Replay != nil {
 		var c c18Case
 		if err := json.Unmarshal(r.Replay, &c); err != nil {
@@ -376,6 +402,52 @@ func TestVerifC18(t *testing.T) {
 		{Type: "FLAP", Gap: 500 * time.Millisecond},
 		{Type: "CLOCK-BACK", Gap: 500 * time.Millisecond},
 	}
+	// A message arriving at the instant of a link flap, after and before another message
+	// (for every pair of the alphabet).
+	for _, m1 := range sub {
+		for _, m2 := range sub {
+			if m1.Type == "FLAP" || m1.Type == "CLOCK-BACK" || m2.Type == "FLAP" || m2.Type == "CLOCK-BACK" {
+				continue
+			}
+			mf := m2
+			mf.AtFlap = true
+			one(c18Case{Seq: []c18Msg{m1, mf}})
+			one(c18Case{Seq: []c18Msg{mf, m1}})
+		}
+	}
+	// ... and, for a message of each type at the flap, every goroutine schedule with at
+	// most 2 deviations from the canonical one (the read returning the message before,
+	// while and after the monitor is being torn down).
+	nsched := int64(0)
+	for _, i := range []int{0, 5, 9, 10, 12, 14} {
+		mf := sub[i]
+		mf.AtFlap = true
+		c := c18Case{Seq: []c18Msg{sub[1], mf, sub[9]}}
+		idx++
+		if !r.Mine(idx) {
+			continue
+		}
+		var out [][2]string
+		sc := c18Scenario(c, &out)
+		sc.Check = func(x *vsched.Exec) [][2]string {
+			if x.Failure != "" {
+				return append(out, [2]string{"C18:" + x.FailKind, x.Failure})
+			}
+			return out
+		}
+		st := vsched.Explore(t, sc, vsched.Options{Bound: 2, OnExec: func(x *vsched.Exec, viol [][2]string) {
+			nsched++
+			r.Case(c.String()+fmt.Sprint(x.Choices()), true)
+			for _, v := range viol {
+				cc := c
+				cc.Choices = x.Choices()
+				r.Violation(v[0], c.String()+" schedule "+fmt.Sprint(x.Choices())+": "+v[1], cc)
+			}
+		}})
+		r.Count("states", st.States)
+		r.Count("transitions", st.Transitions)
+	}
+	r.Count("schedules_explored_for_messages_at_a_link_flap", nsched)
 	// A message, the clock stepped back, another message (for every pair of the alphabet).
 	for _, m1 := range sub {
 		for _, m2 := range sub {
